@@ -231,6 +231,7 @@ def run(ctx, repo):
         'algorithm itself and the parse/format inequality are value-level string arithmetic and are not decided.')
     ctx.rule('R1', 'no float in repr/str/%s/%r notation reaches round_up_str_num; fixed notation with >= 5 decimals is the accepted source')
     ctx.rule('R2', 'parse_hms / str2num raise only ValueError on str input; both separators are tried; sexagesimal weights are 60')
+    ctx.rule('R4', 'round_up_str_num: a length derived from a digit string is not used to slice the string after it was re-built (carry that adds a digit)')
     ctx.rule('R3', 'seconds and minutes lie in [0,59] at every formatting statement; two-digit padding; precision guard 0..3 -> ValueError')
     # ---- R1
     n_calls = 0
@@ -257,6 +258,49 @@ def run(ctx, repo):
                     else:
                         ctx.info('%s::%s: source notation of %s not classified' % (m.rel, q, unparse(c.args[0])))
     ctx.floor('callers of round_up_str_num', n_calls, 1)
+    # ---- R4 stale length: a length taken from a digit string must not be used to slice that string after it was re-built
+    rus = mod.func('round_up_str_num')
+    n_len = 0
+
+    def scan_block(body):
+        nonlocal n_len
+        lens = {}        # n -> (x, def statement)
+        for st in body:
+            # uses first (a statement may both use and redefine)
+            for sub in ast.walk(st):
+                if isinstance(sub, ast.Subscript) and isinstance(sub.value, ast.Name):
+                    x = sub.value.id
+                    for nm in {q.id for q in ast.walk(sub.slice) if isinstance(q, ast.Name)}:
+                        if nm in lens and lens[nm][0] == x and lens[nm][2]:
+                            ctx.finding('R4', '%s::round_up_str_num::stale length %s of %s' % (UTILS, nm, x), UTILS, sub.lineno,
+                                        '%s was computed from len(%s) (%s) but %s was re-built afterwards (%s) before %s slices it: when the '
+                                        'increment adds a leading digit (9.996 -> 10.00) a digit is dropped and the result is ten times too '
+                                        'small' % (nm, x, src_stmt(lens[nm][1]), x, src_stmt(lens[nm][2]), ast.unparse(sub)), "round_up_str_num('9.996', 2)")
+            if isinstance(st, ast.Assign):
+                tgts = [t.id for tt in st.targets for t in (tt.elts if isinstance(tt, ast.Tuple) else [tt]) if isinstance(t, ast.Name)]
+                for t in tgts:
+                    for nm, (x, d, stale) in list(lens.items()):
+                        if x == t and d is not st:
+                            lens[nm] = (x, d, st)
+                for t in tgts:
+                    lx = [c.args[0].id for c in ast.walk(st.value) if isinstance(c, ast.Call) and call_name(c) == 'len' and c.args and isinstance(c.args[0], ast.Name)]
+                    if lx and len(tgts) == 1:
+                        lens[t] = (lx[0], st, None)
+                        n_len += 1
+            if isinstance(st, ast.AugAssign) and isinstance(st.target, ast.Name):
+                for nm, (x, d, stale) in list(lens.items()):
+                    if x == st.target.id:
+                        lens[nm] = (x, d, st)
+            for fld in ('body', 'orelse'):
+                inner = getattr(st, fld, None)
+                if isinstance(inner, list) and inner and isinstance(st, (ast.If, ast.While, ast.For)):
+                    scan_block(inner)
+
+    def src_stmt(n):
+        return unparse(n)[:50]
+    scan_block(rus.body)
+    if not any(f.rule == 'R4' for f in ctx.findings):
+        ctx.ok('R4', 'round_up_str_num: no length is used after its string was re-built (%d length definitions)' % n_len)
     # ---- R2
     s2n = mod.func('str2num')
     ph = mod.func('parse_hms')
